@@ -1,4 +1,5 @@
 import BddVerif.Props.C02
+import BddVerif.Lemmas.AlgoEqApply
 #print axioms B.Props.C02.canonical_unique
 #print axioms B.Props.C02.canonical_same_observables
 #print axioms B.Props.C02.is_false_exact
@@ -13,3 +14,4 @@ import BddVerif.Props.C02
 #print axioms B.Props.C02.built_unique
 #print axioms B.Props.C02.built_same_observables
 #print axioms B.Props.C02.built_passes_check
+#print axioms B.apply_with_flip_eq_canon
